@@ -180,6 +180,8 @@ impl Cache {
         name: &DomainName,
         qtype: QueryType,
     ) -> Vec<ResourceRecord> {
+        #[cfg(resolved_verif)]
+        use crate::cache::verif::Instant;
         let now = Instant::now();
         let mut rrs = Vec::new();
         match qtype {
@@ -330,6 +332,8 @@ impl<K1: Clone + Eq + Hash, K2: Copy + Eq + Hash, V: PartialEq> PartitionedCache
         &mut self,
         partition_key: &K1,
     ) -> Option<&HashMap<K2, Vec<(V, Instant)>>> {
+        #[cfg(resolved_verif)]
+        use crate::cache::verif::Instant;
         if let Some(partition) = self.partitions.get_mut(partition_key) {
             partition.last_read = Instant::now();
             self.access_priority
@@ -349,6 +353,8 @@ impl<K1: Clone + Eq + Hash, K2: Copy + Eq + Hash, V: PartialEq> PartitionedCache
         partition_key: &K1,
         record_key: &K2,
     ) -> Option<&[(V, Instant)]> {
+        #[cfg(resolved_verif)]
+        use crate::cache::verif::Instant;
         if let Some(partition) = self.partitions.get_mut(partition_key) {
             if let Some(tuples) = partition.records.get(record_key) {
                 partition.last_read = Instant::now();
@@ -364,6 +370,8 @@ impl<K1: Clone + Eq + Hash, K2: Copy + Eq + Hash, V: PartialEq> PartitionedCache
     /// Insert a record into the cache, or reset the expiry time if already
     /// present.
     pub fn upsert(&mut self, partition_key: K1, record_key: K2, value: V, ttl: Duration) {
+        #[cfg(resolved_verif)]
+        use crate::cache::verif::Instant;
         let now = Instant::now();
         let expiry = now + ttl;
         let tuple = (value, expiry);
@@ -468,6 +476,8 @@ impl<K1: Clone + Eq + Hash, K2: Copy + Eq + Hash, V: PartialEq> PartitionedCache
     ///
     /// Returns the number of records removed.
     fn remove_expired_step(&mut self) -> usize {
+        #[cfg(resolved_verif)]
+        use crate::cache::verif::Instant;
         if let Some((partition_key, Reverse(expiry))) = self.expiry_priority.pop() {
             let now = Instant::now();
 
@@ -534,6 +544,52 @@ impl<K1: Clone + Eq + Hash, K2: Copy + Eq + Hash, V: PartialEq> PartitionedCache
             }
         } else {
             0
+        }
+    }
+}
+
+/// Verification hooks (compiled only with `--cfg resolved_verif`): a virtual
+/// clock which the functions in this module read instead of the real one.
+#[cfg(resolved_verif)]
+pub mod verif {
+    use std::sync::atomic::{AtomicU64, Ordering};
+    use std::sync::OnceLock;
+    use std::time::Duration;
+
+    static BASE: OnceLock<std::time::Instant> = OnceLock::new();
+
+    /// Nanoseconds since `base()`; `u64::MAX` means "use the real clock".
+    static VIRTUAL_NANOS: AtomicU64 = AtomicU64::new(u64::MAX);
+
+    /// The instant virtual time is measured from.
+    pub fn base() -> std::time::Instant {
+        *BASE.get_or_init(std::time::Instant::now)
+    }
+
+    /// Switch to the virtual clock and set it, or (with `None`) switch back
+    /// to the real clock.
+    pub fn set_virtual_nanos(nanos: Option<u64>) {
+        base();
+        VIRTUAL_NANOS.store(nanos.unwrap_or(u64::MAX), Ordering::SeqCst);
+    }
+
+    /// Current virtual time, if the virtual clock is in use.
+    pub fn virtual_nanos() -> Option<u64> {
+        match VIRTUAL_NANOS.load(Ordering::SeqCst) {
+            u64::MAX => None,
+            n => Some(n),
+        }
+    }
+
+    /// Stand-in for `std::time::Instant` in `Instant::now()` calls.
+    pub struct Instant;
+
+    impl Instant {
+        pub fn now() -> std::time::Instant {
+            match virtual_nanos() {
+                Some(n) => base() + Duration::from_nanos(n),
+                None => std::time::Instant::now(),
+            }
         }
     }
 }
